@@ -149,6 +149,65 @@ def body_defs():
         return [["C_CloseSession s=%d" % s0], ["C_CloseSession s=%d" % s1]], ["C_OpenSession slot=%d flags=6" % A(ctx), "C_GetSessionInfo s=$0", "FINDALL s=$0 tpl="]
     B["close-vs-close-all-sessions-gone"] = b_close_close
 
+    def b_login_login(ctx):
+        s0, s1 = user_sessions(ctx, login=False)
+        return [["C_Login s=%d user=1 pin=x%s" % (s0, W.USER_A.hex())], ["C_Login s=%d user=1 pin=x%s" % (s1, W.USER_A.hex())]], ["C_GetSessionInfo s=%d" % s0, "C_GetSessionInfo s=%d" % s1]
+    B["login-user-vs-login-user"] = b_login_login
+
+    def b_login_so_user(ctx):
+        s0, s1 = user_sessions(ctx, login=False)
+        return [["C_Login s=%d user=0 pin=x%s" % (s0, W.SO_A.hex())], ["C_Login s=%d user=1 pin=x%s" % (s1, W.USER_A.hex())]], ["C_GetSessionInfo s=%d" % s0, "C_GetSessionInfo s=%d" % s1]
+    B["login-so-vs-login-user"] = b_login_so_user
+
+    def b_logout_login(ctx):
+        s0, s1 = user_sessions(ctx)
+        return [["C_Logout s=%d" % s0], ["C_Login s=%d user=1 pin=x%s" % (s1, W.USER_A.hex())]], ["C_GetSessionInfo s=%d" % s0, "FINDALL s=%d tpl=" % s1]
+    B["logout-vs-login"] = b_logout_login
+
+    def b_destroy_destroy(ctx):
+        s0, s1 = user_sessions(ctx)
+        o = W.ok(ctx.p.CreateObject(s0, F.template("data", token=False, private=False, label=b"victim")), "o")["h"]
+        return [["C_DestroyObject s=%d o=%d" % (s0, o)], ["C_DestroyObject s=%d o=%d" % (s1, o)]], ["FINDALL s=%d tpl=%s" % (s0, LBL(b"victim"))]
+    B["destroy-vs-destroy-same-object"] = b_destroy_destroy
+
+    def b_set_get(ctx):
+        s0, s1 = user_sessions(ctx)
+        o = W.ok(ctx.p.CreateObject(s0, F.template("aes128", token=False, private=False, label=b"old-label", ident=b"i")), "o")["h"]
+        return [["C_SetAttributeValue s=%d o=%d tpl=%s" % (s0, o, tpl([(C.CKA_LABEL, b"new-label"), (C.CKA_ID, b"new-id")]))],
+                ["C_GetAttributeValue s=%d o=%d tpl=%s" % (s1, o, tpl([(C.CKA_LABEL, Out(16)), (C.CKA_ID, Out(16))]))]], ["C_GetAttributeValue s=%d o=%d tpl=%s" % (s1, o, tpl([(C.CKA_LABEL, Out(16)), (C.CKA_ID, Out(16))]))]
+    B["set-attribute-vs-get-attribute"] = b_set_get
+
+    def b_set_find(ctx):
+        s0, s1 = user_sessions(ctx)
+        o = find1(ctx.p, s0, b"pub-data")
+        return [["C_SetAttributeValue s=%d o=%d tpl=%s" % (s0, o, tpl([(C.CKA_LABEL, b"renamed")]))], ["FINDALL s=%d tpl=%s" % (s1, LBL(b"renamed")), "FINDALL s=%d tpl=%s" % (s1, LBL(b"pub-data"))]], ["FINDALL s=%d tpl=%s" % (s1, LBL(b"renamed"))]
+    B["set-token-attribute-vs-find"] = b_set_find
+
+    def b_copy_destroy(ctx):
+        s0, s1 = user_sessions(ctx)
+        o = W.ok(ctx.p.CreateObject(s0, F.template("data", token=False, private=False, label=b"src")), "o")["h"]
+        return [["C_CopyObject s=%d o=%d tpl=%s" % (s1, o, tpl([(C.CKA_LABEL, b"dst")]))], ["C_DestroyObject s=%d o=%d" % (s0, o)]], ["FINDALL s=%d tpl=%s" % (s0, LBL(b"src")), "FINDALL s=%d tpl=%s" % (s0, LBL(b"dst"))]
+    B["copy-vs-destroy-source"] = b_copy_destroy
+
+    def b_closeall_open(ctx):
+        s0, s1 = user_sessions(ctx)
+        # the opening thread does not USE its new session while the other thread may be closing it (that would be one session used by two threads,
+        # which PKCS#11 forbids); what became of the token is observed afterwards
+        return [["C_CloseAllSessions slot=%d" % A(ctx)], ["C_OpenSession slot=%d flags=6" % A(ctx)]], ["C_GetSessionInfo s=%d" % s0, "C_GetSessionInfo s=$T1.0", "C_OpenSession slot=%d flags=6" % A(ctx), "C_GetSessionInfo s=$2", "FINDALL s=$2 tpl="]
+    B["close-all-sessions-vs-open"] = b_closeall_open
+
+    def b_gen_gen(ctx):
+        s0, s1 = user_sessions(ctx)
+        T = lambda lab: tpl([(C.CKA_VALUE_LEN, 16), (C.CKA_TOKEN, False), (C.CKA_PRIVATE, True), (C.CKA_LABEL, lab)])
+        return [["C_GenerateKey s=%d mech=%s tpl=%s" % (s0, mech(C.CKM_AES_KEY_GEN), T(b"g0"))], ["C_GenerateKey s=%d mech=%s tpl=%s" % (s1, mech(C.CKM_AES_KEY_GEN), T(b"g1"))]], ["FINDALL s=%d tpl=%s" % (s0, LBL(b"g0")), "FINDALL s=%d tpl=%s" % (s0, LBL(b"g1"))]
+    B["generate-key-vs-generate-key"] = b_gen_gen
+
+    def b_destroy_token_find(ctx):
+        s0, s1 = user_sessions(ctx)
+        o = find1(ctx.p, s0, b"pub-data")
+        return [["C_DestroyObject s=%d o=%d" % (s0, o)], ["FINDALL s=%d tpl=%s" % (s1, LBL(b"pub-data"))]], ["FINDALL s=%d tpl=" % s1]
+    B["destroy-token-object-vs-find"] = b_destroy_token_find
+
     def b_three(ctx):
         s0, s1 = user_sessions(ctx)
         return [["C_OpenSession slot=%d flags=6" % A(ctx)], ["C_CreateObject s=%d tpl=%s" % (s1, tpl(F.template("data", token=False, private=False, label=b"x")))], ["C_GetSessionInfo s=%d" % s0, "FINDALL s=%d tpl=%s" % (s0, LBL(b"x"))]], []
@@ -186,6 +245,23 @@ def abstract(res, threads, final):
             row.append(tuple(item))
         out.append(tuple(row) + (("missing", len(lines) - len(answers)),) * (len(lines) != len(answers)))
     return tuple(out)
+
+
+def asan_summary(sh):
+    """(error kind and function of the newest AddressSanitizer reports of this shell's processes, log text); the logs are removed"""
+    import glob, re
+    kinds, text = [], ""
+    for lf in sorted(glob.glob(os.path.join(sh.statedir, "..", "asan.log*")), key=os.path.getmtime):
+        try:
+            t = open(lf, errors="replace").read()
+            os.unlink(lf)
+        except OSError:
+            continue
+        text += t
+        for m in re.finditer(r"SUMMARY: AddressSanitizer: (\S+) \S+ in (.+)", t):
+            fn = re.sub(r"\(.*", "", m.group(2)).strip()
+            kinds.append("%s-in-%s" % (m.group(1), fn))
+    return (",".join(sorted(set(kinds))) or "unclassified"), text
 
 
 def anomaly(ab, seq_out):
@@ -281,13 +357,17 @@ def _task(task):
 
             def check(r, pref):
                 if "tdied" in r:
-                    V("C18|%s|process-died|%s" % (name, "signal-%s" % r["tdied"].get("signal") if "signal" in r["tdied"] else "exit-%s" % r["tdied"].get("exit")), {"schedule": list(pref)})
+                    kind, log = asan_summary(sh)
+                    V("C18|%s|process-died|%s%s" % (name, "signal-%s" % r["tdied"].get("signal") if "signal" in r["tdied"] else "exit-%s" % r["tdied"].get("exit"), "" if kind == "unclassified" else "|" + kind),
+                      {"schedule": list(pref), "asan_log": log[:3000]})
                     return None
                 if r.get("serr"):
                     V("C18|%s|%s" % (name, r["serr"].split(":")[0].replace(" ", "-") if not r["serr"].startswith("mutex protocol") else r["serr"].replace(" ", "-")), {"schedule": list(pref), "error": r["serr"]})
                     return r
                 if r.get("asan"):
-                    V("C18|%s|asan-report" % name, {"schedule": list(pref)})
+                    kind, log = asan_summary(sh)
+                    if True:
+                        V("C18|%s|asan-report|%s" % (name, kind), {"schedule": list(pref), "asan_log": log[:3000]})
                 ab = abstract(r, threads, final)
                 outcomes.add(ab)
                 if ab not in seq_out:
@@ -362,8 +442,8 @@ def _replay_one(task):
 def main(tier):
     rep = Report("C18", tier, "model_checking")
     quick = tier == "quick"
-    variant = "ossl-asan" if quick else "ossl-plain"
-    deadline = time.time() + (400 if quick else 5400)
+    variant = "ossl-asan"        # both tiers: a use after free that a schedule provokes must not go unnoticed
+    deadline = time.time() + (400 if quick else 7200)
     ex = Explorer(C18(), variant=variant)
     cnt, samples = {}, []
     complete = True
@@ -373,6 +453,8 @@ def main(tier):
     wave_log = []
     try:
         names = sorted(body_defs())
+        if os.environ.get("C18_BODIES"):          # maintainer switch: explore some bodies only (never set by a registered command)
+            names = [n for n in names if n in os.environ["C18_BODIES"].split(",")]
         # wave 0: root run of every body (gives the scheduling points); waves 1..: the children are handed back and re-distributed in chunks so that all
         # workers stay busy; the last wave explores the remaining subtrees recursively
         def absorb(r):
